@@ -44,7 +44,9 @@ CLAIMS = {
              "probe regenerated on every run (attribute written on every algorithm singleton by one thread and read "
              "by another; fingerprints of registry._registry and the singletons around a battery of calls run in "
              "another thread) discharges the kernel-checked obligations `sharedScratch = []` and "
-             "`sharedWritesAfterImport = []`. Search/replay on the REAL code: tools/sched.py runs two library calls in "
+             "`sharedWritesAfterImport = []`, and `moduleStateWrites = []` (no module/class-level container, functools "
+             "cache, mutable default argument, closure cell or function attribute of the schwifty modules changes "
+             "across the battery). Search/replay on the REAL code: tools/sched.py runs two library calls in "
              "two threads under a deterministic line-level scheduler and enumerates single-preemption schedules in "
              "forked children. Not modelled: preemption finer than a source line, the free-threaded build, "
              "third-party modules, the import lock.",
@@ -57,7 +59,9 @@ CLAIMS = {
              "instantiated for the only state the library keeps between calls, the German algorithms' scratch cell, "
              "from the C07 per-method theorems (outcome independent of the incoming scratch for all ten digits; "
              "history theorem spelled out for method 25); registries are an immutable parameter of the model and the "
-             "effect-probe obligation `sharedWritesAfterImport = []` is kernel-checked on regenerated data. Dynamic: "
+             "effect-probe obligations `sharedWritesAfterImport = []`, `moduleStateWrites = []` (containers, functools "
+             "caches, mutable defaults, closures of the schwifty modules) and `threadScratchAttrs` within the modelled "
+             "scratch are kernel-checked on regenerated data. Dynamic: "
              "random call histories (incl. failing and malformed calls, seeded random generation, lookup sequences) "
              "run in fresh forked children, each outcome compared with the same call as the FIRST call of another "
              "fresh child, registries fingerprinted, earlier objects re-read. Not provable here: absence of hidden "
@@ -86,13 +90,19 @@ CLAIMS = {
              "length, every published component is found unchanged at its published position and the length is "
              "preserved (induction over the component list using disjointness/bounds from table_wf); precise error "
              "class for an over-long bank / branch / account code in that order; InvalidCountryCode / root error for "
-             "an unknown country / one without positions. PARTIAL: that generate() as a whole never lets a foreign "
-             "exception escape, and the end-to-end read-back through from_bban and the validating constructor, are "
-             "checked by the correspondence/dynamic stream (all countries, lengths 0..width+3, wild alphabets), not "
-             "proved.",
+             "an unknown country / one without positions. End to end (C08EndToEnd), for every country string and ALL "
+             "three component strings: `generate_total` - IBAN.generate returns an IBAN or raises a library error, "
+             "never a foreign exception (every national compute can only raise ValueError/KeyError/IndexError, which "
+             "compute_national_checksum translates); `generate_ok` - a returned IBAN is country code ++ two digits ++ "
+             "BBAN of the country's length, is accepted by the validating constructor, and bank, branch and account "
+             "code - cleaned and zero-padded, or the combined-width bank code cut in two (`split_bank_branch`: the two "
+             "fields spell the cleaned bank code) - sit at the published positions of that BBAN (the assembled string "
+             "is proved compact, the last overlay is the check-digit field whose width is forced by the accepted "
+             "length). Both discharged on the live tables for every registry (`live_generate_*`).",
         design="7 (C08)",
-        technique="Lean 4 proof (list slicing / overlay induction on regenerated position tables) + differential "
-                  "correspondence with read-back and error-class checks"),
+        technique="Lean 4 proof (list slicing / overlay induction, compactness, anatomy of from_components) on "
+                  "regenerated position and algorithm tables + differential correspondence with read-back and "
+                  "error-class checks"),
     "C09": dict(
         text="Lean 4 theorem: for every national algorithm whose validate is the inherited compute == expected (all "
              "but CZ/SK and IS, i.e. exactly the 19 computing countries - instance fact kernel-checked on the "
@@ -153,7 +163,10 @@ CLAIMS = {
              "their case splits), and live_de_total: no live method ever raises a foreign exception on a "
              "ten-digit account. Dispatch theorem (first registry entry names the method; unlisted bank / unimplemented "
              "method accepted), instance facts (39 registered methods, account field = bban[8:18], no DE:default) "
-             "kernel-checked on regenerated data. All methods are additionally compared with an independent Python "
+             "kernel-checked on regenerated data. Constants inside hook bodies (which the class parameters do not show) "
+             "are tied by `live_probes_reproduced`: ~10,500 recorded compute/validate calls per run (unit vectors, "
+             "every check digit of seeded random numbers, numbers around every integer literal of germany.py) "
+             "replayed by the kernel - correspondence, not a theorem. All methods are additionally compared with an independent Python "
              "reference of the published rules and with the model (the published rules in SV.Spec.Germany are a "
              "transcription and are part of the trusted base).",
         design="7 (C07)",
@@ -167,14 +180,21 @@ CLAIMS = {
              "algorithm judges exactly the declared fields cut at the published positions). Published-rule "
              "equivalence is PROVED for the ISO 7064 families (BA, ME, MK, PT, RS, SI, TL; MR, TN; BE) against "
              "SV.Spec.National through kernel-checked instance obligations on the regenerated registration table and "
-             "positions (so BT-vs-BA, a shifted position or a lost country breaks an obligation). PARTIAL: for ES, "
-             "FR, MC, IT, SM, FI, NO, PL, EE, CZ, SK, IS the published rule is an independent Python reference "
-             "(tools/natref.py) compared with the implementation on reference-computed accept/reject cases - a "
-             "differential check, not a proof; their Lean models are tied to the code by correspondence.",
+             "positions (so BT-vs-BA, a shifted position or a lost country breaks an obligation), and for ES, FR, MC, "
+             "IT, SM, FI, NO, PL, EE, CZ, SK, IS (C06Rules): for EVERY structure-conforming BBAN the national check "
+             "returns exactly `if <published rule> then True else raise InvalidBBANChecksum` (Norway: InvalidAccountCode "
+             "when no check digit exists), the rule stated over BBAN string positions with the weights / RIB letter "
+             "table / CIN tables written out, incl. the theorem that the code's 89/15/3 formula is the published RIB "
+             "key of the 21-character number; each through a kernel-checked layout obligation on the regenerated "
+             "tables (algorithm class, field positions, check-field position, structure classes). The constants of "
+             "the hand-written algorithm models are tied to the live objects by `live_probes_reproduced`: ~6,300 "
+             "recorded compute/validate calls (unit vectors over every position x character, seeded random, "
+             "ill-formed) replayed by the kernel on every run - correspondence, not a theorem about all inputs. "
+             "tools/natref.py is a second independent reading of the rules used by the failing-input search.",
         design="7 (C06)",
-        technique="Lean 4 proof (dispatch, field tiling, numerify arithmetic) + decide +kernel instance "
-                  "obligations on regenerated registration/position data + differential check against an "
-                  "independent reference of the published rules"),
+        technique="Lean 4 proof (dispatch, field tiling, numerify / weighted-sum / Luhn / RIB / CIN value lemmas by "
+                  "induction) + decide +kernel instance obligations on regenerated registration/position data and "
+                  "recorded algorithm behaviour + differential check against an independent reference"),
     "C02": dict(
         text="Lean 4 theorems for every country of a well-formed table and every BBAN fitting its structure "
              "string (unbounded): from_bban returns country + fmt02(98 - numeric(bban+country)*100 mod 97) + bban "
